@@ -151,7 +151,7 @@ let () = run_lines (fun f ->
     let verify rd o m a k t =
       let v = verify_model rd o m a k t in
       (match v with Server.VOk -> verified := true | _ -> ()); v in
-    let cfg = { Server.c_transport = (if tr = "t" then Server.Tcp else Server.Udp);
+    let cfg = { Server.c_transport = (if tr = "t" || tr = "T" then Server.Tcp else Server.Udp);
                 Server.c_edns_size = n_of_int (int_of_string edns);
                 Server.c_buflen = nat_of_int 65535;
                 Server.c_catalog = dedup_catalog (parse_catalog cat);
